@@ -184,4 +184,142 @@ def C12(chk):
                        "other code points between two letters" % (n, n - 1))
 
 
-PROPS = {"C04": C04, "C05": C05, "C06": C06, "C10": C10, "C11": C11, "C12": C12, "C13": C13, "C14": C14, "C18": C18}
+def generic_mc(chk, module, name, roles, consts, invariants, instances=(0,), workers=6, timeout=2400, harness_args=(), need_oracle=False):
+    """a model-checking configuration over a generated alphabet, with replay"""
+    import shutil
+    import universe
+    for inst in instances:
+        tag = "%s-i%d" % (name, inst)
+        upath, chosen, u = universe.generate(roles, inst, chk.seed, tag=tag)
+        cdefs = []
+        for k, v in consts.items():
+            if callable(v):
+                v = v(chosen)
+            cdefs.append("  %s = %s" % (k, v))
+        cfg = "SPECIFICATION Spec\nCONSTANTS\n" + "\n".join(cdefs) + "\n"
+        cfg += "".join("INVARIANT %s\n" % i for i in invariants) + "INVARIANT Emit\nCHECK_DEADLOCK FALSE\n"
+        mc = run_mc(module, cfg, tag, workers=workers, timeout=timeout, extra_files=[upath], heap="8g")
+        shutil.rmtree(os.path.dirname(upath), ignore_errors=True)
+        label = "%s:%s[%s] %s inst=%d" % (module, name, ",".join("%s=U+%04X" % (r, chosen[r]) for r in roles),
+                                          " ".join("%s=%s" % (k, v if not callable(v) else "..") for k, v in consts.items() if k == "MaxLen"), inst)
+        if mc.res.violated:
+            spec_violation(chk, mc, label)
+            continue
+        replay(chk, mc, label, harness_args=list(harness_args), classify=classify_std, need_oracle=need_oracle)
+
+
+def tla_set(strs):
+    return "{" + ", ".join('"%s"' % x for x in strs) + "}"
+
+
+CTX_INVS = ["ScanEqualsDeclarative", "NotApplOnlyForeign", "UndefinedOnlyOutside", "RegistryMatchesProperty",
+            "RegisteredRuleApplies", "StdClassesSound"]
+
+
+def C03(chk):
+    q = chk.tier == "quick"
+    n = 4 if q else 5
+    insts = (0, 1) if q else (0, 1, 2, 3)
+    generic_mc(chk, "MC_Context", "joiners", ["ZWNJ", "ZWJ", "vir", "arab", "alef", "ljoin", "fatha", "a"],
+               {"MaxLen": n, "Rules": tla_set(["zwnj", "zwj", "middle_dot"])}, CTX_INVS, insts)
+    generic_mc(chk, "MC_Context", "whole-label", ["kmdot", "hira", "han", "kata", "a", "aid", "eaid", "mdot", "l"],
+               {"MaxLen": n - 1 if q else n, "Rules": tla_set(["katakana", "arabic_indic", "ext_arabic_indic", "middle_dot"])}, CTX_INVS, insts)
+    generic_mc(chk, "MC_Context", "neighbours", ["keraia", "grk", "GRK", "geresh", "heb", "hpt", "a", "l", "mdot"],
+               {"MaxLen": n - 1 if q else n, "Rules": tla_set(["keraia", "hebrew", "middle_dot", "zwj"])}, CTX_INVS, insts)
+    apply_l1(chk, ["reg", "vir", "greek", "hebrew", "kana", "ld", "rd"], nontrivial_key="ctx")
+    chk.cov["exhaustive"] = True
+    chk.cov["rule"] = ("every label of length <= %d over three generated alphabets (joiners with L/D/R/T/U joining types and a virama; "
+                       "whole-label rules; Before/After rules), canonical + %d random instances; every public rule function at every "
+                       "offset 0..len+1; TLC checks scan = declarative RFC 5892 formulation, not-applicable/undefined conditions, "
+                       "registry <=> derived property; every (label, rule, offset) and allows() of both classes replayed; L1: every code "
+                       "point as the inspected neighbour of every table-driven rule (virama, Greek, Hebrew, kana/Han, L/D and R/D joining "
+                       "with T handling) and the registry, against Scripts/DerivedJoiningType/UnicodeData 6.3.0" % (n, len(insts) - 1))
+
+
+def C02(chk):
+    q = chk.tier == "quick"
+    insts = (0, 1) if q else (0, 1, 2)
+    free_q = lambda ch: "{%d, %d}" % (ch["eac"], ch["han"])
+    free_t = lambda ch: "{%d, %d, %d}" % (ch["eac"], ch["han"], ch["emo"])
+    sc_invs = ["LoopEqualsSpec", "AcceptIff", "FirstOffender"]
+    if q:
+        generic_mc(chk, "MC_StringClass", "user-class", ["ZWJ", "vir", "mdot", "l", "eac", "han"],
+                   {"MaxLen": 4, "FreeSyms": free_q}, sc_invs, (0,))
+    else:
+        generic_mc(chk, "MC_StringClass", "user-class", ["ZWJ", "vir", "mdot", "l", "eac", "han", "emo"],
+                   {"MaxLen": 4, "FreeSyms": free_t}, sc_invs, (0,), timeout=3000)
+    n = 4 if q else 5
+    generic_mc(chk, "MC_Context", "all-properties", ["a", "SP", "TAB", "unas", "ZWJ", "vir", "mdot", "l", "jamo", "rom4", "emo", "han"],
+               {"MaxLen": n - 1 if q else n - 1, "Rules": tla_set(["zwj"])}, CTX_INVS, insts)
+    generic_mc(chk, "MC_Context", "contextual", ["ZWNJ", "ZWJ", "vir", "arab", "mdot", "l", "aid", "eaid", "TAB"],
+               {"MaxLen": n, "Rules": "{}"}, CTX_INVS, insts)
+    apply_l1(chk, ["reg"], nontrivial_key="ctx")
+    chk.cov["exhaustive"] = True
+    chk.cov["rule"] = ("user-supplied classes: every assignment of the 7 property values to %d free multi-byte symbols x every label of "
+                       "length <= 4 over them and the fixed symbols ZWJ/virama/middle dot/l, through a harness-defined class using the "
+                       "DEFAULT allows(); standard classes: every label <= %d over 12 roles covering every derived-property value and <= %d "
+                       "over contextual characters; TLC checks loop = declarative, accept-iff, first-offender payload; all replayed with "
+                       "error payload (cp, code-point position, property) compared" % (2 if q else 3, n - 1, n))
+
+
+def C07(chk):
+    q = chk.tier == "quick"
+    n = 2 if q else 3
+    insts = (0, 1) if q else (0, 1, 2)
+    profs = tla_set(["UCM", "UCP", "OPQ", "NICK"])
+    invs = ["ResultRule", "ViaEnforce", "Reflexive", "Symmetric", "EnforcedIsEquivalent"]
+    invs_t = invs + ["Transitive"]
+    generic_mc(chk, "MC_Compare", "case-width-space", ["a", "A", "FWA", "SP", "NBSP", "ypo", "TAB"], {"MaxLen": 2, "Profs": profs}, invs_t, insts,
+               harness_args=["--forms"])
+    generic_mc(chk, "MC_Compare", "normalization", ["e", "acute", "Eac", "angst", "rom4", "dotI", "diaer"], {"MaxLen": 2, "Profs": profs}, invs_t, insts,
+               harness_args=["--forms"])
+    generic_mc(chk, "MC_Compare", "rtl", ["heb", "hpt", "aid", "d1", "a", "SP"], {"MaxLen": n, "Profs": profs}, invs, (0,),
+               harness_args=["--forms"])
+    if not q:
+        generic_mc(chk, "MC_Compare", "case-width-space3", ["a", "A", "FWA", "SP", "NBSP", "ypo"], {"MaxLen": 3, "Profs": profs}, invs, (0, 1),
+                   harness_args=["--forms"], timeout=3000)
+        generic_mc(chk, "MC_Compare", "normalization3", ["e", "acute", "Eac", "angst", "rom4", "dotI"], {"MaxLen": 3, "Profs": profs}, invs, (0, 1),
+                   harness_args=["--forms"], timeout=3000)
+    chk.cov["exhaustive"] = True
+    chk.cov["rule"] = ("every ordered pair of strings of length <= 2 (thorough: <= 3) over alphabets mixing case/width/spacing variants, "
+                       "canonically and compatibly equivalent spellings, RTL and invalid characters, all four profiles; TLC checks the "
+                       "result/first-error rule, compare = equality of enforced forms (non-Nickname), reflexivity, symmetry, and "
+                       "transitivity over all triples of strings <= 2; every pair replayed through Profile::compare and "
+                       "PrecisFastInvocation::compare; non-trivial = pairs of different strings both accepted")
+
+
+BIDI_ALL = ["AL", "AN", "B", "BN", "CS", "EN", "ES", "ET", "FSI", "L", "LRE", "LRI", "LRO", "NSM", "ON", "PDF", "PDI", "R", "RLE",
+            "RLI", "RLO", "S", "WS"]
+BIDI_REP = ["R", "AL", "AN", "EN", "NSM", "ES", "ON", "L", "WS"]
+
+
+def C09(chk):
+    q = chk.tier == "quick"
+    # (1) the product automaton: labels of every length over all 23 classes
+    cfg = ("SPECIFICATION Spec\nCONSTANTS\n  Classes = %s\n  Bounded = FALSE\n  MaxLen = 0\n"
+           "INVARIANT ScanIsRfc\nINVARIANT FindingShape\nINVARIANT NoInteriorNoDifference\nCHECK_DEADLOCK FALSE\n" % tla_set(BIDI_ALL))
+    mc = run_mc("MC_Bidi", cfg, "c09-product", workers=4)
+    if mc.res.violated:
+        return spec_violation(chk, mc, "MC_Bidi product")
+    chk.add_tlc("MC:MC_Bidi product (all lengths, 23 classes)", mc.res)
+    os.remove(mc.replay_path)
+    # (2) bounded, with emission: all 23 classes short, 9 representative classes longer
+    binvs = "INVARIANT ScanIsRfc\nINVARIANT FindingShape\nINVARIANT NoInteriorNoDifference\nINVARIANT MonitorIsDeclarative\nINVARIANT Emit\nCHECK_DEADLOCK FALSE\n"
+    for name, classes, n, draws in (("all23", BIDI_ALL, 3, 2 if q else 4), ("rep9", BIDI_REP, 5 if q else 6, 1 if q else 3)):
+        cfg = "SPECIFICATION Spec\nCONSTANTS\n  Classes = %s\n  Bounded = TRUE\n  MaxLen = %d\n" % (tla_set(classes), n) + binvs
+        mc = run_mc("MC_Bidi", cfg, "c09-" + name, workers=6, timeout=3000, heap="8g")
+        if mc.res.violated:
+            spec_violation(chk, mc, "MC_Bidi " + name)
+            continue
+        replay(chk, mc, "MC_Bidi %s len<=%d draws=%d" % (name, n, draws), harness_args=["--draws", str(draws)], classify=classify_std,
+               need_oracle=True)
+    apply_l1(chk, ["bidi"], nontrivial_key="bidi_nonL")
+    chk.cov["rule"] = ("product of the RFC 5893 monitor and the scans over all 23 classes: labels of EVERY length (finite model, exhaustive); "
+                       "bounded: every class sequence of length <= 3 over 23 classes and <= %d over 9 representative classes, each instantiated "
+                       "with code points assigned in 16.0.0 (first member and seeded random members of the class) and sent through "
+                       "directionality_rule of both username profiles; L1: observable bidi group of every code point against UnicodeData 16.0.0; "
+                       "non-trivial = RTL class sequences" % (5 if q else 6))
+    chk.assumptions += ["L and the classes outside the rule's vocabulary (B, S, WS, explicit formatting) are not distinguishable through the rule"]
+
+
+PROPS = {"C02": C02, "C03": C03, "C07": C07, "C09": C09, "C04": C04, "C05": C05, "C06": C06, "C10": C10, "C11": C11, "C12": C12, "C13": C13, "C14": C14, "C18": C18}
